@@ -1499,8 +1499,28 @@ func (e *Engine) VerifyFunc(key string) {
 			e.inputVars = append(e.inputVars, NamedVal{Name: fmt.Sprintf("%s#%d", prm.Name(), j), T: l})
 		}
 	}
-	if len(fn.FreeVars) > 0 {
-		execFail("closures are verified inline with their parent, not on their own")
+	// a function literal verified on its own: its captured variables are inputs like parameters
+	// (captured by reference: a cell holding an arbitrary well-formed value of the variable's type)
+	for _, fv := range fn.FreeVars {
+		pt, isPtr := fv.Type().Underlying().(*types.Pointer)
+		if !isPtr {
+			v := freshOf("fv:"+fv.Name(), fv.Type(), nil, true)
+			st.assumeWF(v, fv.Type())
+			fr.env[fv] = v
+			continue
+		}
+		if isAggregate(pt.Elem()) {
+			execFail("captured aggregate variable %s is not supported", fv.Name())
+		}
+		v := freshOf("fv:"+fv.Name(), pt.Elem(), nil, true)
+		st.assumeWF(v, pt.Elem())
+		e.assumeParam(st, v, pt.Elem(), fv.Name() == "_this")
+		e.nextCell++
+		st.Cells[e.nextCell] = v
+		fr.env[fv] = &PtrV{Kind: PCell, Cell: e.nextCell}
+		for j, l := range leaves(v) {
+			e.inputVars = append(e.inputVars, NamedVal{Name: fmt.Sprintf("%s#%d", fv.Name(), j), T: l})
+		}
 	}
 	p := &Path{st: st, stack: []*Frame{fr}}
 	entry := st.Clone()
@@ -1555,6 +1575,48 @@ func (e *Engine) VerifyFunc(key string) {
 		if _, ok := st.Ghost["evLen"]; !ok {
 			st.Ghost["evLen"] = fwdTop.preLen
 		}
+	}
+	// ghost code at entry (ghost_set NAME = EXPR): executed after the entry snapshot was taken, so
+	// old(NAME) in the postcondition is the value before the call
+	for _, g := range ct.GhostSets {
+		gctx := e.funcCtx(p, fr, entry)
+		gctx.cur = entry
+		for k, v := range fr.lets {
+			gctx.env[k] = v
+		}
+		tv, err := gctx.Eval(g.E)
+		if err != nil {
+			e.failObl("resolve", "ghost_set:"+g.Text, err.Error()+" at "+g.Where())
+			return
+		}
+		gd, ok := e.cs.Ghosts[g.Text]
+		if !ok || gd.IsFunc {
+			e.failObl("resolve", "ghost_set:"+g.Text, "no ghost variable "+g.Text)
+			return
+		}
+		gt := gctx.resolveType(gd.Type)
+		st.ghostVal(g.Text, gt) // make sure the location exists (and is in the entry snapshot below)
+		if _, ok := entry.Ghost[g.Text]; !ok {
+			entry.Ghost[g.Text] = st.Ghost[g.Text]
+		}
+		if g.Index != nil {
+			ga, isArr := gt.(*GhostArrT)
+			if !isArr {
+				e.failObl("resolve", "ghost_set:"+g.Text, g.Text+" is not a ghost array")
+				return
+			}
+			iv, err := gctx.Eval(g.Index)
+			if err != nil {
+				e.failObl("resolve", "ghost_set:"+g.Text, err.Error()+" at "+g.Where())
+				return
+			}
+			// all ghost_set clauses read the entry state: the array is updated on top of what earlier
+			// clauses of this contract already stored
+			cur := st.Ghost[g.Text].(*Term)
+			st.Ghost[g.Text] = Store(cur, gctx.convert(iv, ga.Idx).V.(*Term), gctx.convert(tv, ga.Elem).V.(*Term))
+			continue
+		}
+		st.Ghost[g.Text] = gctx.convert(tv, gt).V
 	}
 	nExit := 0
 	e.runPaths(p, func(p *Path, normal bool, res []Value) {
